@@ -1,9 +1,26 @@
 /-
 C06 — Broker answers every request packet with exactly one matching ack.
+
+Vocabulary (definitions in Proofs/Lemmas/Router/Rp2_*.lean):
+* `acksOf s id`      — the replies registered for connection `id` and not yet flushed (its `AckLog.committed`);
+* `Appended s s' id as` — `s'` differs from `s`, as far as ack logs, links' buffers and client ids go, only
+                        in that `as` was appended to the ack log of `id` (every other connection's ack log, link
+                        and client id is unchanged, `links` is unchanged);
+* `IsReplyTo pkt as`  — `as` is the reply owed to `pkt` (`[PUBACK id]`, `[PUBREC id]`, `[PUBCOMP id]`,
+                        `[SUBACK id codes]`, `[UNSUBACK id reasons]`, `[PINGRESP]`, or `[]`);
+* `Replies pkts as`   — `as` is the concatenation, in packet order, of the replies owed to `pkts`;
+* `Notif.isAck n`     — the notification is a `DeviceAck`;
+* `committedEvents evs` — the (connection id, ack) pairs of the `committed` events in a piece of ghost history.
 -/
-import Proofs.Lemmas.Router.Local
+import Proofs.Lemmas.Router.Rp2_Consume
+import Proofs.Lemmas.Router.Rp2_Payload
+import Proofs.Lemmas.Router.Rp2_Qos2
+import Proofs.Lemmas.Router.Rp2_Examples
+import Proofs.Lemmas.Router.Rp2_Commits
 namespace C06
 open Router
+
+/-! ### registering one reply (`AckLog`) -/
 
 /-- registering a reply appends exactly that reply to the connection's own ack log, behind the
     replies registered earlier (order of requests = order of replies) -/
@@ -21,37 +38,262 @@ theorem reply_goes_to_its_own_client (s : RState) (id j : Nat) (a : Ack) (c : Co
   refine ⟨_, commitAck_spec s id a c h, ?_⟩
   simp [getConn_setConn_ne _ _ _ _ hj]
 
-/-- a sweep flushes every pending reply, in registration order, to that connection's link and
-    leaves none behind -/
-theorem flush_moves_all_replies_in_order (s : RState) (id : Nat) (c : Conn)
-    (h : getConn s id = some c) (hne : c.acks.committed ≠ []) :
-    (getLink (ackDeviceData s id) c.link).obuf = (getLink s c.link).obuf ++ c.acks.committed.map Notif.ack ∧
-    (getConn (ackDeviceData s id) id).map (·.acks.committed) = some [] := by
-  unfold ackDeviceData
-  simp only [h]
-  have hne' : c.acks.committed.isEmpty = false := by
-    cases hc : c.acks.committed with
-    | nil => exact absurd hc hne
-    | cons _ _ => rfl
-  simp only [hne', Bool.false_eq_true, if_false]
-  constructor
-  · simp only [getLink_setConn, wakeLink, pushNotifs, getLink_setLink_same, LinkBuf.wake]
-    split <;> rfl
-  · have hlt := getConn_lt h
-    simp [getConn, setConn, Slab.get?, Slab.set, wakeLink, pushNotifs, setLink, hlt]
+/-! ### "for every accepted client packet that requires a reply … exactly one" — one packet -/
 
-/-- a QoS 2 publish is not appended to any log when it arrives: it is recorded and PUBREC is
-    registered; it is the PUBREL that appends it (see `handlePacket`, `.pubrel`) -/
+/-- QoS 1 PUBLISH: exactly one PUBACK with the same packet id is appended to the publisher's ack
+    log (whether or not the publish itself is then accepted by `append_to_commitlog`), nothing to
+    anybody else's, and a flush is requested -/
+theorem qos1_publish_gets_one_puback (s s' : RState) (id : Nat) (cid : String) (p : Pub) (fl fl' : Flags)
+    (c : Conn) (hc : getConn s id = some c) (hq : p.qos = 1)
+    (h : handlePacket s id cid (.publish p) fl = .ok (s', fl')) :
+    acksOf s' id = some (c.acks.committed ++ [Ack.puback p.pkid]) ∧
+    Appended s s' id [Ack.puback p.pkid] ∧ fl'.forceAck = true := by
+  obtain ⟨a, b⟩ := handlePacket_publish_appended h
+  simp only [hq, if_true] at a
+  exact ⟨a.acksOf hc, a, b (.inl hq)⟩
+
+/-- QoS 2 PUBLISH: exactly one PUBREC with the same packet id; the publish is not appended to any
+    log when it arrives: it is recorded, and it is the PUBREL that appends it -/
 theorem qos2_publish_is_only_recorded (s : RState) (id : Nat) (cid : String) (p : Pub) (fl : Flags)
     (c : Conn) (h : getConn s id = some c) (hq : p.qos = 2) :
     ∃ s' fl', handlePacket s id cid (.publish p) fl = .ok (s', fl') ∧ s'.datalog = s.datalog ∧
       (getConn s' id).map (·.acks.recorded) = some (c.acks.recorded ++ [p]) ∧
-      (getConn s' id).map (·.acks.committed) = some (c.acks.committed ++ [Ack.pubrec p.pkid]) := by
+      (getConn s' id).map (·.acks.committed) = some (c.acks.committed ++ [Ack.pubrec p.pkid]) ∧
+      Appended s s' id [Ack.pubrec p.pkid] ∧ fl'.forceAck = true := by
   have h1 : ¬ p.qos = 1 := by omega
-  simp only [handlePacket, h1, if_false, hq, if_true, h]
-  refine ⟨_, _, rfl, ?_, ?_, ?_⟩
-  · rfl
+  have hp : handlePacket s id cid (.publish p) fl =
+      .ok ((setConn s id { c with acks := { committed := c.acks.committed ++ [Ack.pubrec p.pkid],
+                                            recorded := c.acks.recorded ++ [p] } }).g
+              (.committed id (.pubrec p.pkid)), { fl with forceAck := true }) := by
+    simp [handlePacket, hq, h]
+  refine ⟨_, _, hp, rfl, ?_, ?_, ?_, rfl⟩
   · simp [getConn_setConn_same _ _ _ (getConn_lt h)]
   · simp [getConn_setConn_same _ _ _ (getConn_lt h)]
+  · have := (handlePacket_publish_appended hp).1
+    simpa [h1, hq] using this
+
+/-- PUBREL (the client releases a QoS 2 publish): exactly one PUBCOMP with the same packet id -/
+theorem pubrel_gets_one_pubcomp (s s' : RState) (id : Nat) (cid : String) (pkid : Nat) (fl fl' : Flags)
+    (c : Conn) (hc : getConn s id = some c)
+    (h : handlePacket s id cid (.pubrel pkid false) fl = .ok (s', fl')) :
+    acksOf s' id = some (c.acks.committed ++ [Ack.pubcomp pkid]) ∧ Appended s s' id [Ack.pubcomp pkid] := by
+  have a := handlePacket_pubrel_appended h
+  exact ⟨a.acksOf hc, a⟩
+
+/-- SUBSCRIBE: exactly one SUBACK with the same packet id; its codes are the requested QoS of the
+    filters, in order — one per filter when every filter is acceptable (no `$`-filter other than
+    `$share/…`, no subscription identifier 0), and of the filters before the first unacceptable one
+    otherwise (the connection is then closed: `fl'.disconnect`) -/
+theorem subscribe_gets_one_suback_with_a_code_per_filter (s s' : RState) (id : Nat) (cid : String)
+    (pkid : Nat) (subId : Option Nat) (fs : List SubFilter) (fl fl' : Flags) (c : Conn)
+    (hc : getConn s id = some c)
+    (h : handlePacket s id cid (.subscribe pkid subId fs) fl = .ok (s', fl')) :
+    ∃ codes, acksOf s' id = some (c.acks.committed ++ [Ack.suback pkid codes]) ∧
+      Appended s s' id [Ack.suback pkid codes] ∧
+      (∃ k, k ≤ fs.length ∧ codes = (fs.take k).map (·.qos)) ∧
+      ((subId ≠ some 0 ∧ ∀ f ∈ fs, validSubscription f.path = true) →
+          codes = fs.map (·.qos) ∧ codes.length = fs.length) ∧
+      fl'.forceAck = true := by
+  obtain ⟨codes, a, b, d, e, _⟩ := handlePacket_subscribe_appended h
+  exact ⟨codes, a.acksOf hc, a, b, fun hv => ⟨d hv, by rw [d hv]; simp⟩, e⟩
+
+/-- UNSUBSCRIBE: exactly one UNSUBACK with the same packet id, with one reason per filter -/
+theorem unsubscribe_gets_one_unsuback (s s' : RState) (id : Nat) (cid : String) (pkid : Nat)
+    (fs : List String) (fl fl' : Flags) (c : Conn) (hc : getConn s id = some c)
+    (h : handlePacket s id cid (.unsubscribe pkid fs) fl = .ok (s', fl')) :
+    ∃ reasons, acksOf s' id = some (c.acks.committed ++ [Ack.unsuback pkid reasons]) ∧
+      Appended s s' id [Ack.unsuback pkid reasons] ∧ reasons.length = fs.length ∧ fl'.forceAck = true := by
+  obtain ⟨rs, a, b, d, _⟩ := handlePacket_unsubscribe_appended h
+  exact ⟨rs, a.acksOf hc, a, b, d⟩
+
+/-- PINGREQ: exactly one PINGRESP -/
+theorem pingreq_gets_one_pingresp (s s' : RState) (id : Nat) (cid : String) (fl fl' : Flags)
+    (c : Conn) (hc : getConn s id = some c)
+    (h : handlePacket s id cid .pingreq fl = .ok (s', fl')) :
+    acksOf s' id = some (c.acks.committed ++ [Ack.pingresp]) ∧ Appended s s' id [Ack.pingresp] ∧
+    fl'.forceAck = true := by
+  obtain ⟨a, b, _⟩ := handlePacket_pingreq_appended h
+  exact ⟨a.acksOf hc, a, b⟩
+
+/-- packets that require no reply get none: QoS 0 PUBLISH, PUBACK, PUBCOMP, PUBREL carrying
+    properties (ignored by this router), DISCONNECT and the packets a broker never expects -/
+theorem no_reply_where_none_is_owed (s s' : RState) (id : Nat) (cid : String) (pkt : Packet) (fl fl' : Flags)
+    (c : Conn) (hc : getConn s id = some c)
+    (hk : (∃ p, pkt = .publish p ∧ p.qos ≠ 1 ∧ p.qos ≠ 2) ∨ (∃ k, pkt = .puback k) ∨ (∃ k, pkt = .pubcomp k) ∨
+          (∃ k, pkt = .pubrel k true) ∨ pkt = .disconnect ∨ pkt = .other)
+    (h : handlePacket s id cid pkt fl = .ok (s', fl')) :
+    acksOf s' id = some c.acks.committed ∧ Appended s s' id [] := by
+  obtain ⟨as, r, a, _⟩ := handlePacket_reply h
+  have has : as = [] := by
+    rcases hk with ⟨p, rfl, h1, h2⟩ | ⟨k, rfl⟩ | ⟨k, rfl⟩ | ⟨k, rfl⟩ | rfl | rfl
+    · simpa [IsReplyTo, h1, h2] using r
+    all_goals simpa [IsReplyTo] using r
+  subst has
+  exact ⟨by simpa using a.acksOf hc, a⟩
+
+/-- all kinds at once: whatever the packet, exactly the reply owed to it (`IsReplyTo`) is appended
+    to the requester's ack log and to nobody else's; every request that is owed a reply at once
+    (QoS 1/2 PUBLISH, SUBSCRIBE, UNSUBSCRIBE, PINGREQ) asks for the connection to be rescheduled -/
+theorem each_packet_gets_exactly_its_reply (s s' : RState) (id : Nat) (cid : String) (pkt : Packet)
+    (fl fl' : Flags) (c : Conn) (hc : getConn s id = some c)
+    (h : handlePacket s id cid pkt fl = .ok (s', fl')) :
+    ∃ as, IsReplyTo pkt as ∧ acksOf s' id = some (c.acks.committed ++ as) ∧ Appended s s' id as ∧
+      (pkt.forcesAck = true → fl'.forceAck = true) := by
+  obtain ⟨as, r, a, f⟩ := handlePacket_reply h
+  exact ⟨as, r, a.acksOf hc, a, f⟩
+
+/-! ### "… in the order its requests were received" — one batch, one event -/
+
+/-- a batch of packets read from one connection: the replies are appended in packet order, for the
+    packets up to and including the one that stops the batch (all of them if none does); nothing
+    is appended to another connection's ack log -/
+theorem batch_replies_in_request_order (s s' : RState) (id : Nat) (cid : String) (pkts : List Packet)
+    (fl fl' : Flags) (c : Conn) (hc : getConn s id = some c)
+    (h : handlePackets s id cid pkts fl = .ok (s', fl')) :
+    ∃ k as, k ≤ pkts.length ∧ Replies (pkts.take k) as ∧
+      acksOf s' id = some (c.acks.committed ++ as) ∧ Appended s s' id as ∧
+      (fl'.stop = false → k = pkts.length) := by
+  obtain ⟨k, as, hk, r, a, hs, _, _⟩ := handlePackets_replies id cid pkts h
+  exact ⟨k, as, hk, r, a.acksOf hc, a, hs⟩
+
+/-- the spec-level history agrees with the ack logs: while a batch of packets of connection `id`
+    is handled, the `committed` events recorded in the ghost history — the reference the C06 monitor
+    compares each link's drained acks with — are exactly the acks appended to `id`'s ack log, in the
+    same order, all attributed to `id` -/
+theorem committed_history_is_the_ack_log (s s' : RState) (id : Nat) (cid : String) (pkts : List Packet)
+    (fl fl' : Flags) (c : Conn) (hc : getConn s id = some c)
+    (h : handlePackets s id cid pkts fl = .ok (s', fl')) :
+    ∃ as evs, acksOf s' id = some (c.acks.committed ++ as) ∧ Appended s s' id as ∧
+      s'.ghost = s.ghost ++ evs ∧ committedEvents evs = as.map (fun a => (id, a)) := by
+  obtain ⟨as, a, evs, g, cm⟩ := handlePackets_commits id cid pkts h
+  exact ⟨as, evs, a.acksOf hc, a, g, cm⟩
+
+/-- one `DeviceData` event: either the batch closed the connection (its unflushed replies are
+    dropped with it — the property speaks of replies the broker "sends" on an open connection), or
+    the replies to the whole incoming buffer were appended in order behind the earlier ones, no
+    outgoing buffer was written, no other connection's ack log changed, and — if the batch contained
+    a request that is owed a reply at once — the connection is scheduled or waits for its link
+    (tracker not `Paused(Caughtup)`), so the next sweep of it flushes them (`ack_order_and_owner`) -/
+theorem device_data_registers_replies_in_order (s s' : RState) (id : Nat) (c : Conn)
+    (hc : getConn s id = some c) (h : handleDevicePayload s id = .ok s') :
+    getConn s' id = none ∨
+    ∃ as, Replies (getLink s c.link).ibuf as ∧
+      acksOf s' id = some (c.acks.committed ++ as) ∧
+      (∀ l, (getLink s' l).obuf = (getLink s l).obuf) ∧
+      (∀ j, j ≠ id → (getConn s' j).map Conn.view = (getConn s j).map Conn.view) ∧
+      ((∃ p ∈ (getLink s c.link).ibuf, p.forcesAck = true) → NotCaughtup s' id) := by
+  obtain ⟨as, hcase⟩ := handleDevicePayload_spec hc h
+  rcases hcase with ⟨hn, _⟩ | ⟨r, ⟨c', g, a, _, _⟩, ho, _, hj, hf⟩
+  · exact .inl hn
+  · exact .inr ⟨as, r, by simp [acksOf, g, a], ho, hj, hf⟩
+
+/-! ### "… sent in the order received and never to another client" — the flush -/
+
+/-- a sweep flushes every pending reply, in registration order, to that connection's link and
+    leaves none behind -/
+theorem flush_moves_all_replies_in_order (s : RState) (id : Nat) (c : Conn)
+    (h : getConn s id = some c) :
+    (getLink (ackDeviceData s id) c.link).obuf = (getLink s c.link).obuf ++ c.acks.committed.map Notif.ack ∧
+    (getConn (ackDeviceData s id) id).map (·.acks.committed) = some [] := by
+  obtain ⟨a, _, ⟨c', g, e, _⟩, _⟩ := ackDeviceData_spec s id c h
+  exact ⟨a, by simp [g, e]⟩
+
+/-- `ack_order_and_owner`, one `consume()`: the connection swept (`id`, the first live entry of the
+    ready queue) gets all its pending replies on its own link `c.link`, in the order they were
+    registered, ahead of everything else the sweep writes there, and that "everything else"
+    contains no ack; its ack log is left empty (each reply is sent once); no other link's buffers
+    are written (never to another client) and no other connection's ack log changes -/
+theorem ack_order_and_owner (s s' : RState) (b : Bool) (id : Nat) (rq : List Nat) (c : Conn)
+    (hq : s.readyqueue.dropWhile (fun id => (s.conns.get? id).isNone) = id :: rq)
+    (hc : getConn s id = some c) (h : consume s = .ok (s', b)) :
+    (∃ rest, (getLink s' c.link).obuf = (getLink s c.link).obuf ++ c.acks.committed.map Notif.ack ++ rest ∧
+        ∀ n ∈ rest, n.isAck = false) ∧
+    (∀ l, l ≠ c.link → getLink s' l = getLink s l) ∧
+    acksOf s' id = some [] ∧
+    (∀ j, j ≠ id → (getConn s' j).map Conn.view = (getConn s j).map Conn.view) :=
+  (consume_flushes_in_order hq hc h).2
+
+/-- end to end on one `DeviceData` event followed by the sweep of that connection: the replies to
+    the packets of the batch reach the requester's own link, once each, in request order, behind
+    the replies that were already pending and ahead of any forward of that sweep; no other link
+    receives anything in either step -/
+theorem requests_answered_in_order_on_own_link (s s1 s2 : RState) (b : Bool) (id : Nat) (rq : List Nat)
+    (c : Conn) (hc : getConn s id = some c)
+    (hdata : handleDevicePayload s id = .ok s1) (hopen : getConn s1 id ≠ none)
+    (hturn : s1.readyqueue.dropWhile (fun id => (s1.conns.get? id).isNone) = id :: rq)
+    (hsweep : consume s1 = .ok (s2, b)) :
+    ∃ as rest, Replies (getLink s c.link).ibuf as ∧
+      (getLink s2 c.link).obuf =
+        (getLink s c.link).obuf ++ (c.acks.committed ++ as).map Notif.ack ++ rest ∧
+      (∀ n ∈ rest, n.isAck = false) ∧
+      (∀ l, l ≠ c.link → (getLink s2 l).obuf = (getLink s l).obuf) ∧
+      acksOf s2 id = some [] := by
+  obtain ⟨as, hcase⟩ := handleDevicePayload_spec hc hdata
+  rcases hcase with ⟨hn, _⟩ | ⟨r, ⟨c1, g1, a1, l1, _⟩, ho, _, _, _⟩
+  · exact absurd hn hopen
+  · obtain ⟨_, ⟨rest, e, hno⟩, hoth, hempty, _⟩ := consume_flushes_in_order hturn g1 hsweep
+    refine ⟨as, rest, r, ?_, hno, ?_, hempty⟩
+    · rw [l1] at e; rw [e, ho, a1]
+    · intro l hl
+      rw [hoth l (by rw [l1]; exact hl), ho]
+
+/-- the link side: a drain hands over the whole outgoing buffer, in buffer order, and empties it —
+    so the acks reach the client in the order the sweeps wrote them (each once) -/
+theorem drain_returns_buffer_in_order (s s' : RState) (l : Nat) (o : Out)
+    (hl : l < s.links.length) (htok : (getLink s l).tokens > 0) (h : step s (.drain l) = .ok (s', o)) :
+    o = .drained true (getLink s l).obuf ∧ (getLink s' l).obuf = [] ∧
+    (∀ l', l' ≠ l → getLink s' l' = getLink s l') ∧ s'.conns = s.conns := by
+  simp only [step, hl, if_true, htok] at h
+  simp only [Except.ok.injEq, Prod.mk.injEq] at h
+  obtain ⟨rfl, rfl⟩ := h
+  exact ⟨rfl, by rw [getLink_setLink_same], fun l' hl' => getLink_setLink_ne _ _ _ _ hl', rfl⟩
+
+/-! ### "A QoS 2 publish is forwarded to subscribers only once it has been released, and once per release" -/
+
+/-- a PUBREL hands exactly the oldest recorded QoS 2 publish `p` to `append_to_commitlog`, once,
+    and removes it from the record, so it cannot be forwarded again: either nothing is accepted
+    (the append failed — invalid alias or topic — and the connection is closed), or the history
+    gains exactly one `accepted` event, for `p`, with one `appended` copy per filter index that
+    `matches` returned. Under the property's hypothesis that releases come in publish order
+    (`p.pkid = pkid`) this is the publish with the released id. -/
+theorem qos2_forward_on_release_only (s s' : RState) (id : Nat) (cid : String) (pkid : Nat) (fl fl' : Flags)
+    (c : Conn) (p : Pub) (rest : List Pub) (hc : getConn s id = some c) (hrec : c.acks.recorded = p :: rest)
+    (h : handlePacket s id cid (.pubrel pkid false) fl = .ok (s', fl')) :
+    recordedOf s' id = some rest ∧
+    ∃ evs, s'.ghost = s.ghost ++ [.committed id (.pubcomp pkid)] ++ evs ∧
+      ((fl'.disconnect = true ∧ evs = [] ∧ s'.datalog = s.datalog) ∨
+       (∃ (q : Pub) (topic : String) (idxs : List Nat),
+          SamePublish p q ∧ (p.pkid = pkid → q.pkid = pkid) ∧ utf8? q.topic = some topic ∧
+          acceptedEvents evs = [(some id, q, topic)] ∧
+          appendedEvents evs = idxs.map (fun i => (i, { q with retain := false })) ∧
+          (∀ j, logAt s' j = (logAt s j).map (appendN { q with retain := false } (idxs.count j))))) := by
+  obtain ⟨a, evs, g, hcase⟩ := pubrel_forwards_oldest_recorded hc hrec h
+  refine ⟨a, evs, g, ?_⟩
+  rcases hcase with h1 | ⟨q, topic, idxs, sp, u, ac, ap, lg, _, _⟩
+  · exact .inl h1
+  · exact .inr ⟨q, topic, idxs, sp, fun e => sp.pkid.trans e, u, ac, ap, lg⟩
+
+/-- a PUBREL that releases nothing (no QoS 2 publish is recorded) forwards nothing: logs and
+    retained map are untouched, only the PUBCOMP is registered, and the connection is closed -/
+theorem release_without_publish_forwards_nothing (s s' : RState) (id : Nat) (cid : String) (pkid : Nat)
+    (fl fl' : Flags) (c : Conn) (hc : getConn s id = some c) (hrec : c.acks.recorded = [])
+    (h : handlePacket s id cid (.pubrel pkid false) fl = .ok (s', fl')) :
+    s'.datalog = s.datalog ∧ s'.ghost = s.ghost ++ [.committed id (.pubcomp pkid)] ∧ fl'.disconnect = true :=
+  pubrel_nothing_recorded hc hrec h
+
+/-! ### non-vacuity: the hypotheses are satisfiable on a concrete router state -/
+
+example : ∃ s' fl', handlePacket exState 0 "a" (.publish exPub1) {} = .ok (s', fl') ∧
+    acksOf s' 0 = some [Ack.puback 7] := ⟨_, _, rfl, rfl⟩
+
+example : ∃ s' fl', handlePacket exState 0 "a" .pingreq {} = .ok (s', fl') ∧
+    acksOf s' 0 = some [Ack.pingresp] := ⟨_, _, rfl, rfl⟩
+
+example : ∃ s' fl', handlePacket exState 0 "a" (.unsubscribe 3 ["x", "y"]) {} = .ok (s', fl') ∧
+    acksOf s' 0 = some [Ack.unsuback 3 [false, false]] := ⟨_, _, rfl, rfl⟩
+
+example : ∃ s' fl', handlePackets exState 0 "a" [.pingreq, .publish exPub2, .pubrel 9 false] {} = .ok (s', fl') ∧
+    acksOf s' 0 = some [Ack.pingresp, Ack.pubrec 9, Ack.pubcomp 9] ∧ recordedOf s' 0 = some [] :=
+  ⟨_, _, rfl, rfl, rfl⟩
 
 end C06
